@@ -37,3 +37,36 @@ def parsed_pool(chk, mdl, n):
     good = sorted(set(f for f, o in zip(strs, outs) if o.startswith("parse 0 ")))
     chk.rng.shuffle(good)
     return good[:n]
+
+import itertools
+SEG_SMALL = ["", ".", "..", "a", "b:c"]
+SEG_FULL = ["", ".", "..", "a", "b", "a:b", "%41", "%2e", "%2F"]
+
+def small_texts(max_segs, alphabet=SEG_SMALL, auths=(None, "//h"), schemes=(None, "s"), queries=(None,), frags=(None,)):
+    """all URI texts with a path of <= max_segs segments over the alphabet (syntactic validity is
+    filtered later by the model's parser)"""
+    out = []
+    seen = set()
+    for n in range(0, max_segs + 1):
+        for segs in itertools.product(alphabet, repeat=n):
+            body = "/".join(segs)
+            for auth in auths:
+                for sch in schemes:
+                    for abs_ in ((True,) if auth is not None else (False, True)):
+                        if auth is not None:
+                            path = ("/" + body) if n > 0 else ""
+                        else:
+                            if n == 0 and not abs_: path = ""
+                            elif n == 0: path = "/"
+                            else: path = ("/" if abs_ else "") + body
+                        for q in queries:
+                            for fr in frags:
+                                t = (sch + ":" if sch else "") + (auth or "") + path + ("?" + q if q is not None else "") + ("#" + fr if fr is not None else "")
+                                if t not in seen:
+                                    seen.add(t); out.append(t)
+    return out
+
+def valid_texts(mdl, texts):
+    fs = [enc_s(t) for t in texts]
+    outs = lib.run_lines(mdl, ["parse %s 3" % f for f in fs])
+    return [t for t, o in zip(texts, outs) if o.startswith("parse 0 ")]
